@@ -1,10 +1,15 @@
 (* Props/C08.v — property theorems only.  Lazy evaluation does not depend on stanza order.
    PARTIAL: the full statement
      lazy_perm_invariant : Permutation blocks blocks' -> (run_l blocks = Ok g -> exists g', run_l blocks' = Ok g' /\ g ≅ g') /\ (is_err .. <-> is_err ..)
-   is not proved yet.  Proved here: the order-independence of the scoped-variable store, which is the
-   mechanism the property names ("a scoped variable may be read by a stanza that textually precedes the
-   one defining it").  The whole-run statement is explored by the direct permutation stream. *)
-From TSG Require Import Model.Lazy Proofs.Scoped Proofs.PermFacts.
+   is not proved yet.  Proved here: the order-independence of the two mechanisms the property names —
+   the scoped-variable store ("a scoped variable may be read by a stanza that textually precedes the one
+   defining it") and the deferred graph operations ("an attribute may be put on an edge that a later stanza
+   creates"): the edge and attribute statements that the stanzas deferred give the same graph, and fail or
+   succeed together, in EVERY order (deferred_ops_any_order, deferred_attrs_fail_any_order,
+   lazy_eval_any_order_partial).  What is missing for the whole-run statement is the execution phase:
+   executing the (stanza, match) blocks in another order renumbers graph nodes and store locations.
+   The whole-run statement is explored by the direct permutation stream. *)
+From TSG Require Import Model.Lazy Proofs.Scoped Proofs.PermFacts Proofs.SLGraph Proofs.SLForce Proofs.SLStmt Proofs.StrictLazy Proofs.EvalPerm Proofs.EvalPermLazy.
 From Coq Require Import Permutation.
 
 (* forcing the definitions collected for one scoped-variable name: whether it succeeds (no duplicate
@@ -32,6 +37,44 @@ Theorem edges_before_attributes_partial : forall st s p u s' p',
   | LSPrint _ _ => l_edges s' = l_edges s /\ l_attrs s' = l_attrs s /\ l_prints s' = l_prints s ++ [st]
   end.
 Proof. intros st s p u s' p' H. unfold push_lstmt, upd, modify in H. inversion H; subst. destruct st; cbn; auto. Qed.
+
+(* DEFERRED GRAPH OPERATIONS IN ANY ORDER.  `geq` = same nodes, same edges (same sinks in the same order), same
+   attribute values under every name; only the order in which an attribute map lists its entries may differ. *)
+Theorem deferred_ops_any_order : forall es es' ops ops' g g1 g2,
+  Permutation es es' -> Permutation ops ops' -> edges_sorted g ->
+  apply_edges es g = Some g1 -> apply_attrs ops g1 = Some g2 ->
+  exists g2', apply_edges es' g = Some g1 /\ apply_attrs ops' g1 = Some g2' /\ geq g2 g2'.
+Proof. exact deferred_ops_any_order_lemma. Qed.
+(* a conflict (two different values for one attribute of one element) is found in every order *)
+Theorem deferred_attrs_fail_any_order : forall ops ops' g, Permutation ops ops' -> apply_attrs ops g = None -> apply_attrs ops' g = None.
+Proof. exact deferred_attrs_fail_any_order_lemma. Qed.
+(* the evaluation phase of the lazy interpreter on deferred statements with pure values (fragment of
+   strict_lazy_same_graph): whatever order the stanzas pushed them in, evaluation never fails or panics and
+   produces the same graph, once one order succeeds as graph operations *)
+Theorem lazy_eval_any_order_partial : forall t fl call F rho g ls pl E E' A A' eops aopss g1 g2,
+  vinv call rho g ls -> nob pl -> edges_sorted g ->
+  Forall2 (den_edge call rho) E eops -> Forall2 (den_astmt call rho) A aopss ->
+  apply_edges eops g = Some g1 -> apply_attrs (concat aopss) g1 = Some g2 ->
+  Permutation E E' -> Permutation A A' ->
+  lres ((iterM (eval_lstmt t fl call F) E' ;;; iterM (eval_lstmt t fl call F) A') ls pl)
+       (fun _ ls' _ => geq g2 (l_graph ls')).
+Proof. exact lazy_eval_any_order_lemma. Qed.
+
+(* non-vacuity: an attribute on an edge listed BEFORE the statement creating the edge, two attributes of one
+   node in both orders: both orders succeed and the results differ only in the order of the attribute entries *)
+Example c08_ops_nonvacuous :
+  let g := [new_gnode; new_gnode] in
+  exists g1 g2 g2', apply_edges [(0, 1); (1, 0)] g = Some g1 /\ apply_edges [(1, 0); (0, 1)] g = Some g1 /\
+    apply_attrs [AN 0 [97] (VInt 1); AN 0 [98] (VInt 2); AE 0 1 [99] (VInt 3)] g1 = Some g2 /\
+    apply_attrs [AE 0 1 [99] (VInt 3); AN 0 [98] (VInt 2); AN 0 [97] (VInt 1)] g1 = Some g2' /\ geq g2 g2' /\ g2 <> g2' /\
+    apply_attrs [AN 0 [97] (VInt 1); AN 0 [97] (VInt 2)] g1 = None /\ apply_attrs [AN 0 [97] (VInt 2); AN 0 [97] (VInt 1)] g1 = None.
+Proof.
+  cbv zeta. eexists. eexists. eexists. split; [vm_compute; reflexivity|]. split; [vm_compute; reflexivity|].
+  split; [vm_compute; reflexivity|]. split; [vm_compute; reflexivity|].
+  split; [|split; [discriminate|split; vm_compute; reflexivity]].
+  unfold geq, node_eq, edges_eq, edge_eq. repeat first [apply Forall2_nil | apply Forall2_cons | split]; cbn [g_attrs g_edges fst snd]; try reflexivity.
+  all: intros k; cbn [alist_get]; repeat match goal with |- context [str_eqb k ?x] => destruct (BaseFacts.str_eqb_spec k x); subst end; try reflexivity; try congruence; try discriminate.
+Qed.
 
 Example c08_nonvacuous :
   build (fun lv => match lv with LValue (VSyn n) => n | _ => 0 end)
